@@ -173,6 +173,9 @@ func (securityAssociation *SecurityAssociation) Unmarshal(b []byte) error {
 			proposal.SPI = append(proposal.SPI, b[8:8+spiSize]...)
 		}
 
+		if 8+spiSize > int(proposalLength) {
+			return errors.Errorf("Proposal: SPI size %d exceeds the proposal length %d", spiSize, proposalLength)
+		}
 		transformData = b[8+spiSize : proposalLength]
 
 		for len(transformData) > 0 {
